@@ -9,6 +9,33 @@ ROOT = os.path.dirname(os.path.dirname(os.path.abspath(__file__)))
 WT = "/var/tmp/vx-selftest-wt"
 EX, LU, BL, GE = "src/formatters/expression.rs", "src/formatters/luau.rs", "src/formatters/block.rs", "src/formatters/general.rs"
 
+FU = "src/formatters/functions.rs"
+FA_DOC = "/// Formats a FunctionArgs node.\n"
+FA_STR = """            if ctx.config().call_parentheses == CallParenType::Input
+                || (ctx.should_omit_string_parens()
+                    && !matches!(call_next_node, FunctionCallNextNode::ObscureWithoutParens))
+            {"""
+FA_TAB = FA_STR.replace("string", "table")
+FA_STR_H = "            if written_without_parentheses(ctx, ctx.should_omit_string_parens(), &call_next_node) {"
+FA_TAB_H = FA_STR_H.replace("string", "table")
+HELPER_BAD = """fn written_without_parentheses(ctx: &Context, omit_parentheses: bool, call_next_node: &FunctionCallNextNode) -> bool {
+    let without_parentheses = ctx.config().call_parentheses == CallParenType::Input || omit_parentheses;
+
+    without_parentheses && !matches!(call_next_node, FunctionCallNextNode::ObscureWithoutParens)
+}
+
+"""
+HELPER_OK = """fn written_without_parentheses(ctx: &Context, omit_parentheses: bool, call_next_node: &FunctionCallNextNode) -> bool {
+    if ctx.config().call_parentheses == CallParenType::Input {
+        return true;
+    }
+
+    let obscure = matches!(call_next_node, FunctionCallNextNode::ObscureWithoutParens);
+    omit_parentheses && !obscure
+}
+
+"""
+
 # (name, file, old text, new text, unit, feature set, expected: a label that must fail | "ok" | "undecided")
 CASES = [
     ("line safety: operator chain not hung behind a comment", EX, "let hang_behind_comment = lhs.has_trailing_comments(CommentSearch::Single);", "let hang_behind_comment = false;", "expr", "all", "C05.hang_binop.line_safe"),
@@ -30,6 +57,14 @@ CASES = [
     ("separator: a space in front of the arguments although comments ended the line", "src/formatters/trivia_util.rs", "        create_indent_trivia(ctx, shape)\n    } else if len >= 2\n        && trivia_is_whitespace", "        separator\n    } else if len >= 2\n        && trivia_is_whitespace", "args", "default", "C10.separator_or_indent"),
     ("separator: format_call always separates with the style's space", "src/formatters/functions.rs", "            let function_call_trivia = vec![trivia_util::separator_or_indent(\n                ctx,\n                &formatted_function_args.leading_trivia(),\n                shape,\n                create_function_call_trivia(ctx),\n            )];", "            let function_call_trivia = vec![create_function_call_trivia(ctx)];", "args", "default", "C11.call_form"),
     ("separator: string argument without parentheses always spaced", "src/formatters/functions.rs", "                    Token::new(TokenType::spaces(1)), // Single space before the token reference\n                );\n                let token_reference = token_reference\n                    .update_leading_trivia(FormatTriviaType::Append(vec![separator]));", "                    Token::new(TokenType::spaces(1)), // Single space before the token reference\n                );\n                let token_reference = token_reference\n                    .update_leading_trivia(FormatTriviaType::Append(vec![Token::new(TokenType::spaces(1))]));", "args", "default", "C10.sugar_argument_separated"),
+    ("collapse: is_if_guard no longer asks for a simple block", "src/formatters/stmt.rs", "        && trivia_util::is_block_simple(if_node.block())\n", "", "collapse", "default", "C02.if_guard_is_one_statement"),
+    ("collapse: format_if drops the else block", "src/formatters/stmt.rs", "        .with_else(else_block)\n", "        .with_else(None)\n", "collapse", "default", "C02.format_if_keeps_statements"),
+    ("collapse: format_if collapses an if with an else", "src/formatters/stmt.rs", "    if_node.else_if().is_none()\n        && if_node.else_block().is_none()\n", "    if_node.else_if().is_none()\n", "collapse", "default", "C02.if_guard_is_one_statement"),
+    ("collapse: is_block_simple forgets that a last statement excludes other statements", "src/formatters/trivia_util.rs", "    (block.stmts().next().is_none()\n        && block.last_stmt().is_some()", "    (block.last_stmt().is_some()", "collapse", "default", "C02.simple_block_is_one_statement"),
+    ("collapse: a function body with a comment in front of `end` is collapsed", "src/formatters/functions.rs", "        || function_body\n            .end_token()\n            .leading_trivia()\n            .any(trivia_util::trivia_is_comment)\n", "", "collapse", "default", "C03.collapsed_function_has_no_comments"),
+    # a predicate moved into a new helper next to the function: the helper is inlined (gen.InlineHelper) and verified as part of the caller
+    ("helper: the sugar decision moved into a helper that forgets the Input exception", FU, [FA_DOC, FA_STR, FA_TAB], [HELPER_BAD + FA_DOC, FA_STR_H, FA_TAB_H], "args", "default", "C11.input_keeps_form"),
+    ("harmless: the sugar decision moved into a helper (with a binding and an early return)", FU, [FA_DOC, FA_STR, FA_TAB], [HELPER_OK + FA_DOC, FA_STR_H, FA_TAB_H], "args", "default", "ok"),
     # harmless changes: must still verify
     ("harmless: a comment added inside format_expression_internal", EX, "            let lhs = format_expression_internal(ctx, lhs, lhs_context, shape);\n", "            // the left operand first\n            let lhs = format_expression_internal(ctx, lhs, lhs_context, shape);\n", "expr", "default", "ok"),
     ("harmless: a hole anchor re-wrapped by rustfmt", EX, "            let shape = shape + strip_leading_trivia(&unop).to_string().len();", "            let shape =\n                shape + strip_leading_trivia(&unop).to_string().len();", "expr", "default", "ok"),
@@ -52,9 +87,12 @@ def main():
         for name, f, old, new, unit, fs, expect in CASES:
             if only and only not in name: continue
             p = os.path.join(WT, f); src = open(p).read()
-            if src.count(old) < 1:
+            pairs = list(zip(old, new)) if isinstance(old, list) else [(old, new)]
+            if any(src.count(o) < 1 for o, _ in pairs):
                 print(f"SKIP   {name}: anchor not found in {f}"); bad += 1; continue
-            open(p, "w").write(src.replace(old, new))
+            txt = src
+            for o, n in pairs: txt = txt.replace(o, n)
+            open(p, "w").write(txt)
             r = sh(f"VX_REPO={WT} python3 {ROOT}/vx/dev.py {unit} {fs} 2>&1 | head -12", shell=True, cwd=ROOT)
             open(p, "w").write(src)
             out = r.stdout
